@@ -50,6 +50,7 @@ namespace vs
     {
         int id = 0;
         std::atomic<int> go{0};
+        std::atomic<int> reap{0};  // set by the joiner: only then does the finished thread really exit (deterministic arena / stack reuse)
         bool finished = false;
         pthread_t real{};
         void *(*fn)(void *) = nullptr;
@@ -302,8 +303,13 @@ namespace vs
         inrt = true;
         t->finished = true;
         t->vc.c[t->id]++;
+        self = nullptr;  // from here on this thread is invisible to the runtime: its exit path passes straight through every interposer
         pick(t, false);
         // note: inrt stays true for the thread that was woken; it clears it when it leaves its own pick()
+        // The real exit (TLS destructors, malloc arena release, stack caching) is deferred until a joiner asks for it, so that it
+        // happens entirely inside the joiner's pthread_join while no other thread runs: which arena / stack a later thread
+        // reuses must not depend on how far this thread's exit got in real time (heap addresses would differ between runs).
+        fwait(&t->reap);
         return r;
     }
 }  // namespace vs
@@ -350,6 +356,7 @@ extern "C"
             inrt = true;
             self->vc.join(ths[id]->vc);
             inrt = false;
+            fwake(&ths[id]->reap);
         }
         return real_join(th, ret);
     }
